@@ -264,6 +264,22 @@ pub mod fixed_arr {
     }
 }
 
+/// Read a human-readable (hex string) field and make sure it consists of exactly
+/// `hex_len` hexadecimal characters before it is handed to the curve library,
+/// whose hex decoding aborts on anything else
+pub fn checked_hex_str<'de, D: serde::Deserializer<'de>>(
+    d: D,
+    hex_len: usize,
+) -> Result<serde::de::value::BorrowedStrDeserializer<'de, D::Error>, D::Error> {
+    let s = <&'de str as serde::Deserialize<'de>>::deserialize(d)?;
+    if s.len() != hex_len || !s.bytes().all(|b| b.is_ascii_hexdigit()) {
+        return Err(<D::Error as serde::de::Error>::custom(
+            "invalid hex string length or character",
+        ));
+    }
+    Ok(serde::de::value::BorrowedStrDeserializer::new(s))
+}
+
 pub trait IsZero {
     fn is_zero(&self) -> Choice;
 }
